@@ -394,7 +394,7 @@ func systems() []*system {
 	confKeys3 := coord{name: "keys", kind: cEnum, labels: []string{"P", "V", "small"}}
 	confOrder := coord{name: "order", kind: cEnum, labels: []string{"pq", "qp"}}
 	l = append(l, &system{name: "fac", conf: []coord{confKeys3, confOrder}, chunks: 3,
-		rangePts: []point{{"keys": "P", "order": "p-huge"}, {"keys": "V", "order": "p-huge"}},
+		rangePts: []point{{"keys": "P", "order": "p-huge"}, {"keys": "V", "order": "p-huge"}, {"keys": "P", "order": "q-huge"}, {"keys": "V", "order": "q-huge"}},
 		build: func(pt point) *statement {
 			ks := keysetByName(pt["keys"])
 			aux := other(ks).ped
@@ -407,6 +407,12 @@ func systems() []*system {
 				// out of range on purpose: p ≥ 2^1800 > 2^(l+eps+2)·√N₀, q small; N = p·q (range test only)
 				pb := new(big.Int).SetBit(new(big.Int).Abs(randBits(1800)), 1800, 1)
 				qb := new(big.Int).SetBit(new(big.Int).Abs(randBits(240)), 240, 1)
+				p, q = natFromBig(pb), natFromBig(qb)
+				N = saferith.ModulusFromNat(natFromBig(new(big.Int).Mul(pb, qb)))
+			case "q-huge":
+				// the same with the huge factor in the Q slot: only the range check on z2 can reject
+				pb := new(big.Int).SetBit(new(big.Int).Abs(randBits(240)), 240, 1)
+				qb := new(big.Int).SetBit(new(big.Int).Abs(randBits(1800)), 1800, 1)
 				p, q = natFromBig(pb), natFromBig(qb)
 				N = saferith.ModulusFromNat(natFromBig(new(big.Int).Mul(pb, qb)))
 			}
